@@ -53,7 +53,19 @@ def _reg(pid, run, theorems=(), translator=("T1",), rule="", level_text="", leve
 
 
 _reg("C01", c01.run)
-_reg("C05", c05.run)
+_reg("C05", c05.run,
+     theorems=["NirVerif.C05.affine_linear", "NirVerif.C05.elementwise1", "NirVerif.C05.neuron",
+               "NirVerif.C05.io_ndarray", "NirVerif.C05.io_sequence"],
+     rule="Every element-wise primitive x rank 0..3 (thorough 0..4) x axis lengths 1..3 with all 16 dtypes cycled; "
+          "Affine/Linear weights of rank 2..5; Input/Output shapes as ndarray(int64/int32)/list/tuple/dict; each node "
+          "also taken through a dict and a file round trip; oracle = numpy evaluating the documented equation.",
+     level_text="Kernel-checked: for every weight batch++[m,n] Affine/Linear are built and declare int64 vectors "
+                "batch++[n] / batch++[m], which is exactly the operand/result of the batched matrix-vector product; "
+                "element-wise primitives and neuron models declare the parameter shape (any rank incl. 0); Input/Output "
+                "mirror a given ndarray, list or tuple. Constructors are tied to the model by differential testing of "
+                "every primitive; round-trip stability by the oracle.",
+     level_note="Lean kernel; hand-written model of each __post_init__ over the translator-generated field table (T1); "
+                "correspondence sampling; numpy shape semantics are modelled, not verified.")
 _reg("C08", c08.run, translator=("T1", "T4", "T5"),
      rule="Consistent graphs built forwards from Inputs (all primitives, fan-in/out, residual/recurrent/self/parallel "
           "edges, shuffled edge and node order) with random subsets of erasable annotations erased or an Output shape "
@@ -67,7 +79,18 @@ _reg("C09", c09.run, theorems=["NirVerif.C09.iff", "NirVerif.C09.rejects"],
      level_note="Lean kernel; hand-written model of _check_types and of np.array_equal on shape values; correspondence sampling.")
 _reg("C12", c12.run)
 _reg("C13", c13.run)
-_reg("C19", c19.run)
+_reg("C19", c19.run,
+     theorems=["NirVerif.C19.neuron_IF", "NirVerif.C19.neuron_LI", "NirVerif.C19.neuron_LIF", "NirVerif.C19.weight_rank",
+               "NirVerif.C19.padding_string", "NirVerif.C19.padding_bytes", "NirVerif.C19.cuba_w_in"],
+     rule="All shape tuples over 8 shapes of rank 0..3 for IF/LI (quick: sampled for LIF), CubaLIF with nine forms of "
+          "w_in and mismatching parameter shapes, Affine/Linear weight ranks 0..5, ~25 (thorough ~100) padding strings "
+          "incl. case/whitespace/unicode look-alikes and bytes; expected acceptance known by construction.",
+     level_text="Kernel-checked two-sided characterisations: IF/LI/LIF accepted iff all parameter shapes are equal "
+                "(AssertionError otherwise); Affine/Linear iff weight rank >= 2; a padding string iff it is 'same' or "
+                "'valid' (ValueError otherwise, bytes always rejected); CubaLIF with equal parameter shapes iff w_in "
+                "broadcasts to that shape, and w_in is then stored with that shape; accepted nodes have defined types.",
+     level_note="Lean kernel; hand-written model of __post_init__; numpy broadcasting and `ones_like * w_in` are modelled "
+                "on the dtype combinations the generators produce (same float dtype, Python float with float64).")
 _reg("C20", c20.run)
 
 NOT_APPLICABLE = {}
